@@ -19,6 +19,9 @@ func init() { core.Register(c15{}) }
 
 func (c15) ID() string { return "C15" }
 
+// EvalFeatures names the counters of judged executions.
+func (c15) EvalFeatures() []string { return []string{"inputs"} }
+
 func (c15) Cases(tier string) int {
 	if tier == "thorough" {
 		return 100000
